@@ -74,6 +74,53 @@ static void run_op(const std::vector<std::string> &w, const std::string &, out &
         check_frame(codec, p, f, o);
         return;
     }
+    if (op == "vecbuf")
+    {
+        // the buffer the self-sizing overload allocates: ret.resize(sz*2+4) on an empty vector
+        // allocates exactly that many bytes and the later shrinking resize keeps the allocation,
+        // so capacity() of the returned vector is the buffer size the frame was written into
+        std::vector<bytes> pieces;
+        for (size_t i = 2; i < w.size(); i++) pieces.push_back(unhex(w[i]));
+        gstuff_context ctx;
+        codec_ctx(codec, ctx);
+        std::vector<exact_buf *> bufs;
+        std::vector<iovec> vec;
+        for (auto &x : pieces)
+        {
+            bufs.push_back(new exact_buf(x));
+            vec.push_back(iovec{bufs.back()->p, x.size()});
+        }
+        std::vector<uint8_t> f = gstuffing_v(vec.data(), vec.size(), ctx);
+        size_t n = total_len(pieces);
+        o.result = std::to_string(f.capacity());
+        if (f.capacity() < 2 * n + 4) o.fail("self-sized buffer smaller than the worst-case frame 2n+4");
+        if (pieces.size() == 1)
+        {
+            std::vector<uint8_t> g = gstuffing(igris::buffer((char *)bufs[0]->p, pieces[0].size()), ctx);
+            if (g.capacity() != f.capacity()) o.fail("gstuffing(buffer) sizes its buffer differently from gstuffing_v(vec)");
+        }
+        for (auto b : bufs) delete b;
+        o.tag("self-sized");
+        return;
+    }
+    if (op == "rtraw")
+    {
+        // recorded finding C04-legacy-line-keeps-crc: what the legacy API hands over AS IT IS
+        // (sline_getline / sline_size) judged against "content equals the payload"
+        unsigned cap = (unsigned)strtoul(w[2].c_str(), 0, 10);
+        bytes p = unhex(w[3]);
+        bytes f = enc_pieces(codec, {p}, 2 * p.size() + 4);
+        std::string sts;
+        std::vector<bytes> packets, raw;
+        leg_feed(f, cap, sts, packets, raw);
+        trace t;
+        t.sts = sts;
+        t.packets = raw;
+        o.result = t.show();
+        if (raw.size() != 1 || raw[0] != p)
+            o.fail("legacy API hands over payload ++ crc8 (sline_size = n + 1), not the payload");
+        return;
+    }
     if (op == "rt")
     {
         unsigned cap = (unsigned)strtoul(w[2].c_str(), 0, 10);
@@ -96,18 +143,13 @@ static void run_op(const std::vector<std::string> &w, const std::string &, out &
             o.tag("too-small");
             // (C04 itself only speaks about buffers that are large enough; this is C05's overflow clause,
             // kept here because the stream contains such cases.)  The frame must be reported as overflow
-            // and must not be delivered.  The configurable receiver hunts for a start marker after the
-            // overflow, so nothing at all may be delivered.  The legacy receiver has no hunt state
-            // (recorded finding C05-legacy-no-hunt, judged by C05's strict probes): after the OVERFLOW it
-            // accumulates the rest of the frame, and when the CRC-8 of those few bytes happens to be 0
-            // (1 case in 256) the stop marker completes a bogus short packet.  That is the finding's
-            // input class, not a new violation: for `leg` only a packet completed BEFORE the overflow
-            // report (= the frame itself delivered) fails here.
+            // and nothing of it may be delivered - by any receiver.  (Until `fix: legacy gstuff receiver
+            // hunts for the start marker` the legacy receiver accumulated the rest of the frame after the
+            // OVERFLOW and in 1 case of 256 completed a bogus short packet; that was defect
+            // C05-legacy-no-hunt and is repaired, so `leg` is judged like the others.)
             size_t po = t.sts.find('O'), pn = t.sts.find('N');
-            if (po == std::string::npos || (pn != std::string::npos && (codec != "leg" || pn < po)))
+            if (po == std::string::npos || pn != std::string::npos)
                 o.fail("frame that does not fit was not reported as overflow / was delivered");
-            else if (pn != std::string::npos)
-                o.tag("legacy-packet-after-overflow");
         }
         return;
     }
@@ -216,12 +258,32 @@ static void gen(rng &r, const std::string &tier)
             else
                 printf("enc leg %s\n", hex(p).c_str());
         }
+        // (3b) size of the self-allocated buffer
+        if (ci < 2)
+            for (int rep = 0; rep < (th ? 200 : 30); rep++)
+            {
+                size_t n = rep < 8 ? (size_t)rep : r.below(300);
+                bytes p = rnd_payload(r, a, n);
+                size_t cut = r.below(n + 1);
+                if (rep % 2) printf("vecbuf %s %s\n", codec, hex(p).c_str());
+                else printf("vecbuf %s %s %s\n", codec, hex(bytes(p.begin(), p.begin() + cut)).c_str(), hex(bytes(p.begin() + cut, p.end())).c_str());
+            }
         // (4) receive buffers that are too small: must report overflow
         for (int rep = 0; rep < (th ? 300 : 40); rep++)
         {
             size_t n = 1 + r.below(30);
             bytes p = rnd_payload(r, a, n);
             printf("rt %s %d %s\n", codec, (int)r.range(2, (int)n + 1), hex(p).c_str());
+        }
+    }
+    // (5) recorded finding C04-legacy-line-keeps-crc: the legacy receiver leaves the CRC byte in
+    // the line it hands over
+    {
+        alphabet a = alpha_leg();
+        for (int rep = 0; rep < 12; rep++)
+        {
+            bytes p = rnd_payload(r, a, rep < 3 ? (size_t)rep : r.below(20));
+            printf("@F:C04-legacy-line-keeps-crc rtraw leg %d %s\n", (int)p.size() + 2 + (int)r.below(3), hex(p).c_str());
         }
     }
 }
